@@ -178,10 +178,16 @@ func (ps *Parser) parseMetaTags(root *html.Node) {
 		for _, importantProperty := range importantProperties {
 			prefixWithColon := ps.prefixes[importantProperty.Prefix] + ":"
 
-			// Note that `==` won't work here because importantProperties uses "image:"
-			// (ImageStructPropPfx) for all image structured properties, so as to prevent
-			// repetitive property name comparison - here and then again in ImageParser.
-			if !strings.HasPrefix(property, prefixWithColon+importantProperty.Name) {
+			// Note that `==` won't work for "image:" (ImageStructPropPfx), which stands
+			// for all image structured properties so as to prevent repetitive property
+			// name comparison - here and then again in ImageParser. Every other name has
+			// to match as a whole: "og:title_alt" is not "og:title".
+			importantName := prefixWithColon + importantProperty.Name
+			if strings.HasSuffix(importantProperty.Name, ":") {
+				if !strings.HasPrefix(property, importantName) {
+					continue
+				}
+			} else if property != importantName {
 				continue
 			}
 
